@@ -339,6 +339,24 @@ impl NArr {
     }
 }
 
+/// validity of an item list under the strict rules, without building the result
+fn strict_valid(shape: &[usize], items: &[Item]) -> bool {
+    if items.len() > shape.len() {
+        return false;
+    }
+    items.iter().zip(shape).all(|(it, &n)| {
+        let n = n as isize;
+        match it {
+            Item::Idx(i) => (0..n).contains(&norm(*i, n)),
+            Item::Rng(s, e, st) => *st > 0 && (0..=n).contains(&norm(*s, n)) && (0..=n).contains(&e.map(|e| norm(e, n)).unwrap_or(n)),
+        }
+    })
+}
+
+fn broadcast_valid(shape: &[usize], target: &[usize]) -> bool {
+    target.len() >= shape.len() && shape.iter().rev().zip(target.iter().rev()).all(|(&s, &t)| s == t || s == 1)
+}
+
 fn norm(x: isize, n: isize) -> isize {
     if x < 0 { x + n } else { x }
 }
@@ -595,7 +613,7 @@ impl Act {
                 if let Act::SliceCopy(_) = self {
                     // slice_copy copies a view when the list is valid for `slice`,
                     // otherwise it takes its own path: that is the discriminating class
-                    if r.slice_strict(items).is_err() {
+                    if !strict_valid(&r.shape, items) {
                         f.push("list not valid for slice()");
                     }
                 } else {
@@ -1157,7 +1175,7 @@ fn alphabet(r: &NArr, wide: bool, ak: AK) -> Vec<Act> {
             for_each_items(&r.shape, &profile, len, &mut |it| lists.push(it.to_vec()));
         }
         for items in lists {
-            let ok = r.slice_strict(&items).is_ok();
+            let ok = strict_valid(&r.shape, &items);
             // the panicking variant is the same code path as try_slice + expect;
             // it is exercised on every valid list and on invalid lists of length <= 1
             if ok || len <= 1 || len > rank {
@@ -1205,7 +1223,7 @@ fn alphabet(r: &NArr, wide: bool, ak: AK) -> Vec<Act> {
     }
     // broadcast targets
     for t in small_shapes(if wide { 4 } else { 3 }) {
-        if r.broadcast(&t).is_ok() || t.len() <= 1 {
+        if broadcast_valid(&r.shape, &t) || t.len() <= 1 {
             v.push(Act::Broadcast(t.clone()));
         }
         v.push(Act::TryBroadcast(t));
@@ -1278,7 +1296,7 @@ fn explore(v: &TensorView<'_, i32>, r: &NArr, depth_left: usize, level: usize, c
 /// level-1 full slice alphabet, streamed (no recursion; new states get the node checks)
 fn full_slices(v: &TensorView<'_, i32>, r: &NArr, profile: &[AK], len: usize, with_copy: bool, st: &mut St) {
     for_each_items(&r.shape.clone(), profile, len, &mut |items| {
-        let ok = r.slice_strict(items).is_ok();
+        let ok = strict_valid(&r.shape, items);
         let mut k = |nv: &TensorView<'_, i32>, nr: &NArr, st: &mut St| {
             visit(nv, nr, 0, st);
         };
@@ -1946,6 +1964,8 @@ enum Job {
 }
 
 struct Params {
+    /// chain depth for the "spare" start variant (the other variants use view_depth)
+    spare_depth: usize,
     view_depth: usize,
     recurse_from_copies: bool,
     ak_level1: AK,
@@ -1959,9 +1979,9 @@ struct Params {
 
 fn params(ctx: &Ctx) -> Params {
     if ctx.tier.is_thorough() {
-        Params { view_depth: 3, recurse_from_copies: false, ak_level1: AK::Mid, ak_deeper: AK::Small, rank3_full_axes: 2, owned_depth: 3, owned_view_level: true, range_max_n: 6 }
+        Params { spare_depth: 2, view_depth: 3, recurse_from_copies: false, ak_level1: AK::Mid, ak_deeper: AK::Small, rank3_full_axes: 2, owned_depth: 3, owned_view_level: true, range_max_n: 6 }
     } else {
-        Params { view_depth: 2, recurse_from_copies: false, ak_level1: AK::Mid, ak_deeper: AK::Small, rank3_full_axes: 1, owned_depth: 2, owned_view_level: false, range_max_n: 4 }
+        Params { spare_depth: 1, view_depth: 2, recurse_from_copies: false, ak_level1: AK::Mid, ak_deeper: AK::Small, rank3_full_axes: 1, owned_depth: 2, owned_view_level: false, range_max_n: 4 }
     }
 }
 
@@ -2087,8 +2107,9 @@ fn run_job_inner(job: &Job, p: &Params) -> JobOut {
                 }
                 match job {
                     Job::Chains(_) => {
-                        visit(v, &start.r, p.view_depth, st);
-                        let cfg = Cfg { depth: p.view_depth, recurse_from_copies: p.recurse_from_copies, ak_level1: p.ak_level1, ak_deeper: p.ak_deeper };
+                        let depth = if spec.variant == "spare" { p.spare_depth } else { p.view_depth };
+                        visit(v, &start.r, depth, st);
+                        let cfg = Cfg { depth, recurse_from_copies: p.recurse_from_copies, ak_level1: p.ak_level1, ak_deeper: p.ak_deeper };
                         explore(v, &start.r, cfg.depth, 1, &cfg, st);
                     }
                     Job::Full(_, profile, len, with_copy) => full_slices(v, &start.r, profile, *len, *with_copy, st),
@@ -2251,6 +2272,21 @@ pub fn run(ctx: Ctx) -> ! {
     let mut per_box: BTreeMap<String, (u64, u64, f64)> = BTreeMap::new();
     let mut viol_instances: BTreeMap<String, u64> = BTreeMap::new();
     let samples = Samples::new(8);
+    // violations are reported simplest start first (jobs run biggest first for load balance)
+    let mut order: Vec<usize> = (0..jobs.len()).collect();
+    order.sort_by_key(|&i| match &jobs[i] {
+        Job::Range => (0, 0, i),
+        Job::Chains(s) | Job::Full(s, ..) | Job::Owned(s) => (1 + prod(&s.shape), s.shape.len(), i),
+        Job::Big(s) => (1000 + prod(&s.shape), s.shape.len(), i),
+    });
+    for &i in &order {
+        for (sig, (case, detail, n)) in &outs[i].st.fails {
+            *viol_instances.entry(sig.clone()).or_insert(0) += n;
+            for _ in 0..(*n).min(20) {
+                ctx.violation(sig.clone(), case.clone(), detail.clone());
+            }
+        }
+    }
     for (i, o) in outs.iter().enumerate() {
         for (k, c) in o.st.vcnt.iter().enumerate() {
             vcnt[k].add(c);
@@ -2284,12 +2320,6 @@ pub fn run(ctx: Ctx) -> ! {
         e.0 += 1;
         e.1 += o.st.evals;
         e.2 += o.cpu_s;
-        for (sig, (case, detail, n)) in &o.st.fails {
-            *viol_instances.entry(sig.clone()).or_insert(0) += n;
-            for _ in 0..(*n).min(20) {
-                ctx.violation(sig.clone(), case.clone(), detail.clone());
-            }
-        }
         if i % 97 == 3 || matches!(jobs[i], Job::Big(_)) && i % 4 == 0 {
             if let Some(s) = &o.sample {
                 samples.push(|| s.clone());
@@ -2364,6 +2394,7 @@ pub fn run(ctx: Ctx) -> ! {
             "level1_slices": format!("try_slice (+slice when valid, +slice_copy) with every item list of length 1..=rank; per axis Full = {{Index(i): i in -n-1..=n}} + {{a..b;step: a in -n-1..=n+1, b in None|-n-1..=n+1, step in +-1..3}}; rank<=2 and lengths<=2: Full on every axis; rank 3 length 3: {} axes Full x others Mid(13 items) for every choice of axes (slice_copy on the 1-Full profiles)", p.rank3_full_axes),
             "chain_alphabet": "slice/try_slice/slice_copy item lists of every length 0..=rank+1 over the per-axis alphabet (level 1: Mid 13 items, deeper: Small 6 items, rank>=4: Small), slice_axis (all a<=b<=n + 2 invalid), index_axis (0..=n), split_at (every axis incl. rank, mid 0..=n+1, both halves), every permutation (+3 invalid), transposed, move_axis (0..=rank)^2, insert_axis 0..=rank+1, remove_axis 0..=rank, merge_axes, squeezed, broadcast/try_broadcast to every shape of rank<=3 (level 1: <=4) over {0,1,2,3}, reshaped/to_shape to every ordered factorisation of len with rank<=3 (level 1: <=4) + all shapes of rank<=2 over {0..3}, to_contiguous, to_tensor, map",
             "chain_depth": p.view_depth,
+            "chain_depth_spare_variant": p.spare_depth,
             "chains_continue_from_copies": p.recurse_from_copies,
             "owned": format!("starts: contiguous, column-major owned, with_capacity(shape, axis)+append(first k) for every axis and k in {{0, n-1}}; histories of depth {} over permute (all + invalid), transpose, move_axis, insert_axis, remove_axis, merge_axes, clip_dim (all a<=b<=n + 2 invalid), append (every axis incl. rank; other of size 0,1,2 contiguous and column-major; 3 incompatible others), reshape/into_shape (every factorisation rank<=3 + rank<=1 shapes), make_contiguous{}", p.owned_depth, if p.owned_view_level { "; one level of the Small view alphabet on every owned state" } else { "" }),
             "range": format!("SliceRange::steps/resolve/resolve_clamped for n<= {}, start,end in -n-2..=n+2 (+None), step in +-1..3", p.range_max_n),
